@@ -92,6 +92,31 @@ fn selected_of(mode: &CliMode, lkm: bool, known: &Known) -> BTreeSet<String> {
     oracle::expected_checks(&mode.selection, lkm, known)
 }
 
+/// Addresses of all terms of the P-Code project currently written to the work directory.
+fn program_addresses(wd: &WorkDir) -> BTreeSet<String> {
+    fn walk(v: &Value, out: &mut BTreeSet<String>) {
+        match v {
+            Value::Object(m) => {
+                if let (Some(Value::String(_)), Some(Value::String(a))) = (m.get("id"), m.get("address")) {
+                    out.insert(a.clone());
+                }
+                for x in m.values() {
+                    walk(x, out);
+                }
+            }
+            Value::Array(a) => a.iter().for_each(|x| walk(x, out)),
+            _ => {}
+        }
+    }
+    let mut out = BTreeSet::new();
+    if let Ok(b) = std::fs::read(wd.p("w.json")) {
+        if let Ok(v) = serde_json::from_slice::<Value>(&b) {
+            walk(&v, &mut out);
+        }
+    }
+    out
+}
+
 pub struct Eval {
     pub outs: Vec<RunOut>,
     pub warnings: Vec<Vec<Warning>>,
@@ -103,7 +128,19 @@ pub fn evaluate(ctx: &Ctx, wd: &WorkDir, oracle_kind: &str, case: &Case, lkm: bo
         ("c21", Case::Single { mode, env }) => {
             let out = run::run_cli(wd, &ctx.paths, mode, env, lkm);
             match oracle::check_c21(mode, &out, &ctx.known, &selected_of(mode, lkm, &ctx.known)) {
-                Ok(ws) => Ok(Eval { outs: vec![out], warnings: vec![ws] }),
+                Ok(ws) => {
+                    // "carrying the reported addresses": every address of a warning is an address of a
+                    // term of the analysed program
+                    if mode.json && ws.iter().any(|w| !w.addresses.is_empty()) {
+                        let addrs = program_addresses(wd);
+                        for w in &ws {
+                            if let Some(a) = w.addresses.iter().find(|a| !addrs.contains(*a)) {
+                                return Err((viol("address_not_in_program", format!("warning {} reports address {a:?}, which is not an address of any term of the input program", w.name)), vec![out]));
+                            }
+                        }
+                    }
+                    Ok(Eval { outs: vec![out], warnings: vec![ws] })
+                }
                 Err(v) => Err((v, vec![out])),
             }
         }
